@@ -65,6 +65,7 @@ class Ctx:
         self.errors = []           # harness/oracle problems -> inconclusive
         self.cur = None            # (kind, params) of the case being run
         self.extra = {}            # free-form evidence (sets are merged by union, ints summed)
+        self.repeat = False        # True while the second ("repeat") pass runs
 
     # -- counting -------------------------------------------------------
     def count(self, name, n=1):
@@ -99,6 +100,8 @@ class Ctx:
             case = {"kind": self.cur[0], "params": self.cur[1]}
             if sub is not None:
                 case["sub"] = sub
+            if self.repeat:
+                detail = "[second execution of this case in the same process] " + (detail if isinstance(detail, str) else canon(detail))
             self.violations.append({"key": key, "detail": _short(detail), "case": case})
 
     def oracle_error(self, what):
@@ -134,17 +137,55 @@ def unhx(s):
     return bytes.fromhex(s)
 
 
+REPEAT_SAMPLE = {"quick": 120, "thorough": 600}
+
+
+def shard_of(idx, nshards):
+    """Pseudo-random but deterministic shard assignment.  (idx % nshards would alias with the period-2/3/4/8 patterns
+    the generators use for their class rotations: a shard would then see only ONE variant of such a rotation, and
+    interactions between variants executed in one process - e.g. compressed then uncompressed keys - would never occur.)"""
+    x = (idx * 0x9E3779B97F4A7C15 + 0x7F4A7C15) & 0xFFFFFFFFFFFFFFFF
+    x ^= x >> 29
+    x = (x * 0xBF58476D1CE4E5B9) & 0xFFFFFFFFFFFFFFFF
+    x ^= x >> 32
+    return x % nshards
+
+
 def run_shard(mod, tier, seed, shard, nshards, deadline=None, only=None):
+    """First pass: every case of the shard once.  Second pass ("repeat"): a reservoir sample of the same cases is
+    executed AGAIN, in shuffled order, after everything else has run in this process - a result must not depend on
+    what the process did before (stale caches, mutated module-level templates, state written before a check)."""
     ctx = Ctx(mod.PROP, tier, seed, shard, nshards)
     t0 = time.time()
     timed_out = False
+    rr = rng_for("repeat", mod.PROP, tier, seed, shard)
+    cap = getattr(mod, "REPEAT_SAMPLE", REPEAT_SAMPLE).get(tier, 0)
+    sample, seen_n = [], 0
     for idx, (kind, params) in enumerate(mod.gen_cases(tier, seed)):
-        if idx % nshards != shard:
+        if shard_of(idx, nshards) != shard:
             continue
         if deadline is not None and time.time() > deadline:
             timed_out = True
             break
         run_one(mod, kind, params, ctx)
+        if cap and kind not in getattr(mod, "NO_REPEAT", ()):
+            seen_n += 1
+            if len(sample) < cap:
+                sample.append((kind, params))
+            else:
+                j = rr.randrange(seen_n)
+                if j < cap:
+                    sample[j] = (kind, params)
+    first_pass_s = time.time() - t0
+    rr.shuffle(sample)
+    budget_end = time.time() + max(5.0, first_pass_s)       # the repeat pass may at most double the run
+    for kind, params in sample:
+        if time.time() > budget_end or (deadline is not None and time.time() > deadline):
+            break
+        ctx.repeat = True
+        run_one(mod, kind, params, ctx)
+        ctx.count("repeat_pass.cases")
+    ctx.repeat = False
     res = ctx.result()
     res["wall_s"] = time.time() - t0
     res["timed_out"] = timed_out
